@@ -1,7 +1,7 @@
 """C02 — component lifecycle callbacks fire exactly once per attach/detach (spec/World.tla)."""
 from . import world_common as wc
 
-ACTS = {'create', 'add', 'remove', 'delete', 'process', 'clear', 'toggle', 'probe', 'fault'}
+ACTS = {'create', 'add', 'remove', 'delete', 'process', 'clear', 'toggle', 'probe'}
 # c1: full handler; c2: declares on_add (+probe) only; c3: declares on_remove only (subclass type)
 C3 = {'c1': ('A', ('on_add', 'on_remove', 'probe')), 'c2': ('A', ('on_add', 'probe')), 'c3': ('B', ('on_remove',))}
 C2P = {'c1': ('A', ('on_add', 'on_remove')), 'c2': ('A', ())}
@@ -12,12 +12,16 @@ def run(res):
     th = res.tier == 'thorough'
     K = wc.base(Acts=ACTS, Ids={1, 2}, MaxAuto=1, Types=wc.T2, Bases=wc.BASES2, MaxQ=3 if th else 2, **wc.comps(C3, falsy={'c1', 'c3'}))
     wc.check_and_replay(res, 'c02_lifecycle', K, own, depth_all=3 if th else 2, walks=20000 if th else 2000, walk_len=40)
+    # a postponed callback raising while the queue is released: delivered ones are not repeated, the rest stays pending
+    Kf = wc.base(Acts={'create', 'add', 'remove', 'toggle', 'fault'}, Ids={1}, MaxAuto=1, Types=wc.T2, Bases=wc.BASES2, MaxQ=3,
+                 **wc.comps(C3, falsy={'c1'}))
+    wc.check_and_replay(res, 'c02_release_fault', Kf, own, depth_all=0, walks=10000 if th else 1000, walk_len=30)
     # processors have the same lifecycle (on_add / on_remove without arguments)
     P = wc.procs({'p1': ('P1', ('on_add', 'on_remove')), 'q': ('Q', ('on_remove', 'probe'))}, {'P1': ((), 0), 'Q': ((), 5)})
     K2 = wc.base(Acts={'add', 'remove', 'clear', 'toggle', 'probe', 'proc', 'process'}, Ids={1}, MaxAuto=1, Types=wc.T2, Bases=wc.BASES2,
                  MaxQ=3, Prios={0}, **wc.comps(C2P), **P)
     wc.check_and_replay(res, 'c02_processors', K2, own | {'processors'}, depth_all=0, walks=1000)
     wc.trace_validate(res, 'c02_recorded', wc.big({'create', 'create2', 'add', 'remove', 'delete', 'process', 'clear', 'toggle', 'proc', 'fault'}), 2000 if th else 150, 60)
-    for sw, inv in [('ImmediateDeleteNotifies', ('RegisteredIffAttached',)), ('ClearKeepsSelf', ('WorldListensToItself',)),
+    for sw, inv in [('ImmediateDeleteNotifies', ('RegisteredIffAttached', 'MarksHaveRows')), ('ClearKeepsSelf', ('WorldListensToItself',)),
                     ('RelayOnlyDeclared', ('NoBadRelay',)), ('CreateNotifiesReplaced', ('RegisteredIffAttached',))]:
         wc.switch_run(res, 'c02', K, sw, inv)
